@@ -52,12 +52,20 @@ pub fn vacuum_in_place(
     let stats = pager.write_vacuum_copy(&tmp_path, &reachable)?;
     drop(pager);
 
+    #[cfg(nervusdb_verif)]
+    crate::verif_hooks::io_before("rename", "vacuum.rename.backup", None, Some(ndb_path))?;
     std::fs::rename(ndb_path, &backup_path).map_err(Error::Io)?;
+    #[cfg(nervusdb_verif)]
+    crate::verif_hooks::io_after("rename", "vacuum.rename.backup", None, Some(&backup_path));
+    #[cfg(nervusdb_verif)]
+    crate::verif_hooks::io_before("rename", "vacuum.rename.install", None, Some(&tmp_path))?;
     if let Err(e) = std::fs::rename(&tmp_path, ndb_path) {
         let _ = std::fs::rename(&backup_path, ndb_path);
         let _ = std::fs::remove_file(&tmp_path);
         return Err(Error::Io(e));
     }
+    #[cfg(nervusdb_verif)]
+    crate::verif_hooks::io_after("rename", "vacuum.rename.install", None, Some(ndb_path));
 
     Ok(VacuumReport {
         ndb_path: ndb_path.to_path_buf(),
